@@ -176,6 +176,11 @@ class VTask(Task):
                 go = done < int(beh.get("times", 1)) and rec["iter"] >= int(beh.get("from_iter", 0))
             if go:
                 outputs, ctx = self._outs(ref, beh, rec)
+                if beh.get("echo_ctx"):
+                    # a task that carries its state from iteration to iteration by echoing the context it received
+                    # (engine bookkeeping keys included) plus its own counter
+                    # (the harness's own script key "_v" is not the task's to hand on)
+                    ctx = {**{k: v for k, v in jcopy(dict(stage.context)).items() if k != "_v"}, **ctx, "attempt": rec["iter"] + 1}
                 return TaskResult.jump_to(beh["to"], context=ctx, outputs=outputs)
             return self._finish(ref, beh, rec, then)
         if kind == "suspend":
